@@ -12,10 +12,10 @@ Proof.
   induction ls as [|l r IH]; intros s s' R H; cbn in H; [inversion H; subst; exact R|].
   destruct (ulstep fx s l) eqn:E; [|discriminate]. eapply IH; [|exact H]. eapply ureach_step; eauto.
 Qed.
-Lemma brun_reach mcap progs now0 ls : forall s s', breach mcap progs now0 s -> brun mcap s ls = Some s' -> breach mcap progs now0 s'.
+Lemma brun_reach fx mcap progs now0 ls : forall s s', breach fx mcap progs now0 s -> brun fx mcap s ls = Some s' -> breach fx mcap progs now0 s'.
 Proof.
   induction ls as [|l r IH]; intros s s' R H; cbn in H; [inversion H; subst; exact R|].
-  destruct (blstep mcap s l) eqn:E; [|discriminate]. eapply IH; [|exact H]. eapply breach_step; eauto.
+  destruct (blstep fx mcap s l) eqn:E; [|discriminate]. eapply IH; [|exact H]. eapply breach_step; eauto.
 Qed.
 
 (* non-trivial reachable states (the hypothesis `reach s` of every clause theorem is inhabited by
@@ -27,7 +27,7 @@ Proof.
   exists s. split; [eapply urun_reach; [apply ureach_init|exact H]|]. auto.
 Qed.
 Example buf_reach_example :
-  exists s, breach 1 f11b_progs 1000 s /\ b_q s = [((2, 0)%nat, true)] /\ b_asleep s 1%nat = true.
+  exists s, breach false 1 f11b_progs 1000 s /\ b_q s = [((2, 0)%nat, true)] /\ b_asleep s 1%nat = true.
 Proof.
   destruct f11b_witness as (s & H & A & _ & _ & _ & B & _).
   exists s. split; [eapply brun_reach; [apply breach_init|exact H]|]. auto.
@@ -43,7 +43,7 @@ Definition chan_timeout_reason_unbuffered : Prop :=
   forall progs now0 s e, ureach true progs now0 s -> In e (u_log s) -> e_r e = RTimeout ->
     expired (e_now e) (e_exp e) = true.
 Definition chan_timeout_reason_buffered : Prop :=
-  forall mcap progs now0 s e, breach mcap progs now0 s -> In e (b_log s) -> e_r e = RTimeout ->
+  forall fx mcap progs now0 s e, breach fx mcap progs now0 s -> In e (b_log s) -> e_r e = RTimeout ->
     expired (e_now e) (e_exp e) = true.
 
 (* release (enabledness) for the REPAIRED unbuffered channel: in a quiescent state (every thread
